@@ -48,7 +48,19 @@ def build(system, hist, acc=None, extra=None, check_last=True):
             if not last:
                 raise ReplayDivergence(f'prefix {hist[:i + 1]} became unusable on replay')
             break
+    if extra and extra.get('divergence') and acc is not None and ok is not False:
+        # replay of a 'state-not-function-of-history' violation: two fresh objects driven through the
+        # same history must reach the same state
+        st2, ok2 = build(system, hist)
+        if ok2 and system.canon(st) != system.canon(st2):
+            _mk_report(acc, system, hist, extra)(
+                'state-not-function-of-history', _root_name(system, extra), 'two fresh objects, same history: different states',
+                'identical states', 'the state reached depends on something outside the object (module- or class-level state)')
     return st, (ok is not False)
+
+
+def _root_name(system, extra):
+    return str((extra or {}).get('root', (extra or {}).get('system', type(system).__name__)))
 
 
 def explore(system, depth, acc, first_ops=None, extra=None, root_check=True, max_states=None):
@@ -71,7 +83,19 @@ def explore(system, depth, acc, first_ops=None, extra=None, root_check=True, max
         for h in frontier:
             st, _ = build(system, h)
             if system.canon(st) != key_of[h]:
-                raise ReplayDivergence(f'history {h} reached a different state on replay')
+                # A fresh object replaying the same history reached a different state: either the harness is
+                # nondeterministic or the code under test keeps state outside the object.  Decide by building the
+                # history twice more, back to back; a reproducible difference is reported as a violation (it is
+                # re-executed in a fresh interpreter by the runner before being believed).
+                a, _ = build(system, h)
+                b, _ = build(system, h)
+                ex = dict(extra, divergence=True)
+                _mk_report(acc, system, h, ex)(
+                    'state-not-function-of-history', _root_name(system, extra),
+                    'fresh object + same history: different state', 'identical states',
+                    'the state reached depends on something outside the object (module- or class-level state); '
+                    f'back-to-back rebuilds {"agree" if system.canon(a) == system.canon(b) else "differ"}')
+                continue
             ops = system.ops(st)
             if level == 0 and first_ops is not None:
                 ops = [ops[i] for i in first_ops if i < len(ops)]
